@@ -35,7 +35,7 @@ func HarnessCmdMix() {
 	router := NewRouter("/state")
 	topts := TargetOptions{HealthCheckConfig: HealthCheckConfig{Path: "/up", Interval: 1000, Timeout: 1000}}
 	svc, _ := vInstallOldService(router, topts)
-	switch vChoose("pause", 3) {
+	switch vChoose("pause", vParam("pause_states", 3)) {
 	case 1:
 		svc.pauseController.Pause(1000)
 	case 2:
@@ -50,7 +50,7 @@ func HarnessCmdMix() {
 		svc.rollout = lb
 		svc.rolloutController = NewRolloutController(50, []string{"x"})
 	}
-	if vChoose("restored", 2) == 1 {
+	if vParam("restored_states", 2) == 2 && vChoose("restored", 2) == 1 {
 		// the same configuration after a restart
 		vAssert(router.saveStateSnapshot() == nil, "mix: snapshot")
 		for _, n := range []string{"old:80", "rold:80"} {
